@@ -40,6 +40,7 @@ struct kase {
 };
 static struct kase *K; static int nk, capk;
 static int max_cuts = 1, big_bytewise = 0, only = 0; /* only: 1 small, 2 big */
+static int full_grid = 0;   /* thorough: 9 x 9 limit grid instead of one-limit-at-a-time + corners */
 
 static struct kase *new_case(void)
 {
@@ -88,6 +89,24 @@ static void add_small(const char *cls, const unsigned char *b, size_t n)
 	struct kase probe; memset(&probe, 0, sizeof probe); probe.b = b; probe.n = n; measure(&probe);
 	long M = (long)probe.M, B = (long)probe.B;
 	long hls[] = { 0, 1, M - 1, M, M + 1, UNLIM }, bls[] = { 0, 1, B - 1, B, B + 1, UNLIM };
+	if (full_grid) {
+		/* every pair (header limit, body limit) from {0,1,2,size-2..size+2,unlimited}^2 */
+		long gh[] = { 0, 1, 2, M - 2, M - 1, M, M + 1, M + 2, UNLIM }, gb[] = { 0, 1, 2, B - 2, B - 1, B, B + 1, B + 2, UNLIM };
+		for (int linger = 0; linger < 2; linger++)
+			for (int i = 0; i < 9; i++) for (int j = 0; j < 9; j++) {
+				int dup = 0;
+				if (gh[i] < UNLIM || gb[j] < UNLIM) continue;
+				for (int a = 0; a < i; a++) if (gh[a] == gh[i]) dup = 1;
+				for (int a = 0; a < j; a++) if (gb[a] == gb[j]) dup = 1;
+				if (dup) continue;
+				struct kase *k = new_case();
+				k->b = b; k->n = n; k->hl = gh[i]; k->bl = gb[j]; k->linger = linger; k->big = 0;
+				snprintf(k->cls, sizeof k->cls, "%s", cls);
+				k->M = probe.M; k->B = probe.B; k->T = probe.T; k->complete = probe.complete;
+				k->nseg = nsegs_small(n);
+			}
+		return;
+	}
 	for (int linger = 0; linger < 2; linger++) {
 		for (int i = 0; i < 6; i++) for (int j = 0; j < 6; j++) {
 			/* one limit varies while the other is unlimited, plus the four corners around (M, B) */
@@ -158,6 +177,12 @@ static void build(void)
 	b = mk(&n, "POST /p HTTP/1.1\r\nX: y\r\n%s%s", ch10t, next); add_small("chunked+trailer", b, n);
 	b = mk(&n, "PUT /p HTTP/1.1\r\nExpect: 100-continue\r\n%s%s", cl10, next); add_small("expect+cl", b, n);
 	b = mk(&n, "GET /%s HTTP/1.1\r\nHost: a\r\n\r\n%s", x60, next); add_small("long-request-line", b, n);
+	if (full_grid) {
+		/* thorough only: three chunks, a pipelined POST after a Content-Length body, HTTP/1.0 */
+		b = mk(&n, "POST /p HTTP/1.1\r\nX: y\r\nTransfer-Encoding: chunked\r\n\r\n3\r\nabc\r\n3\r\ndef\r\n4\r\nghij\r\n0\r\n\r\n%s", next); add_small("three-chunks", b, n);
+		b = mk(&n, "POST /p HTTP/1.1\r\nX: y\r\n%sPOST /2 HTTP/1.1\r\nContent-Length: 2\r\n\r\nxy", cl10); add_small("cl+pipelined-post", b, n);
+		b = mk(&n, "POST /p HTTP/1.0\r\nConnection: keep-alive\r\n%s%s", cl10, next); add_small("http10-keepalive+cl", b, n);
+	}
 	/* many short continuation (obs-fold) lines: every single line and the non-folded lines stay
 	 * below the limit, only the folded lines together exceed it — in the header section and in
 	 * the trailer section (same parser).  Limits: the size of the non-folded lines alone (N),
@@ -265,6 +290,10 @@ static void item(uint64_t it)
 		MC_COUNT("delivered_checked");
 		if (k->bl != UNLIM && (long)s.req[i].body_len > k->bl)
 			failk("delivered-over-body-limit", k, "request %d delivered with a %zu-byte body", i, s.req[i].body_len);
+		/* the message's real body (what the stream carries) counts, not what the server kept of it:
+		 * an over-limit message handed over with a truncated body is still an over-limit message */
+		else if (i < ref.nmsgs && k->bl != UNLIM && (long)ref.msgs[i].body_len > k->bl)
+			failk("delivered-over-body-limit", k, "request %d delivered with %zu body bytes although the message's body is %zu bytes", i, s.req[i].body_len, ref.msgs[i].body_len);
 		if (i < ref.nmsgs && k->hl != UNLIM && (long)ref.msgs[i].line_octets > k->hl)
 			failk("delivered-over-header-limit", k, "request %d delivered; its request line + header lines measure %zu bytes", i, ref.msgs[i].line_octets);
 		if (i < ref.nmsgs && k->hl != UNLIM && (long)ref.msgs[i].trailer_line_octets > k->hl)
@@ -315,6 +344,7 @@ int main(int argc, char **argv)
 		if (!strcmp(argv[i], "-P")) {
 			if (!strncmp(argv[i + 1], "cuts=", 5)) max_cuts = atoi(argv[i + 1] + 5);
 			if (!strcmp(argv[i + 1], "bigbytewise=1")) big_bytewise = 1;
+			if (!strcmp(argv[i + 1], "grid=full")) full_grid = 1;
 			if (!strcmp(argv[i + 1], "only=small")) only = 1;
 			if (!strcmp(argv[i + 1], "only=big")) only = 2;
 		}
